@@ -240,6 +240,24 @@ func synthesisable(pt, recv reflect.Type) bool {
 	return false
 }
 
+// Open defects of the unchanged tree that the read-back met (reported to the coordinator with witness
+// and patch); until they are repaired in /repo the calls that run into them are left out, narrowly:
+//
+//	rootNotModule: (*Entry).Modules asserts that the Node of the root entry is a *Module; the entry of
+//	a grouping (ToEntry of a grouping node, Entry.Uses[i].Grouping) and everything below it has a
+//	*Grouping there: Modules() and InstantiatingModule() panic with an interface conversion.
+var guardRootNotModule = true
+
+// rootIsModule reports whether the root entry above e was made from a module node.
+func rootIsModule(e *yang.Entry) bool {
+	n := 0
+	for e.Parent != nil && n < 1<<20 {
+		e, n = e.Parent, n+1
+	}
+	_, ok := e.Node.(*yang.Module)
+	return ok
+}
+
 // callCtx is what the arguments of the calls on one receiver are made from.
 type callCtx struct {
 	entry   *yang.Entry
@@ -263,8 +281,12 @@ func (rb *readback) callAll(recv reflect.Value, ctx *callCtx) {
 		return // methods on nil pointers are not read access to something that came back
 	}
 	curEntry.Store(ctx.entry)
+	noMods := guardRootNotModule && t == entryType && !rootIsModule(recv.Interface().(*yang.Entry))
 	for _, p := range plans {
 		if p.skip != "" {
+			continue
+		}
+		if noMods && (p.name == "Modules" || p.name == "InstantiatingModule") {
 			continue
 		}
 		m := recv.Method(p.idx)
